@@ -66,7 +66,7 @@ class C10(ParamsProp):
     def corpus(self):
         return [dict(c) for c in CLAUSES] + super().corpus()
 
-    families = {"both_flags": 150, "wide_mapping": 40, "override_through_path": 200, "many_layers": 40, "empty_const": 60, "null_const": 30, "odd_keys": 80, "dup_in_one_mapping": 100, "same_value_layers": 60}
+    families = {"both_flags": 150, "wide_mapping": 40, "override_through_path": 200, "many_layers": 40, "empty_const": 60, "null_const": 30, "odd_keys": 80, "dup_in_one_mapping": 100, "same_value_layers": 60, "wide_layer_lookup": 80}
 
     def base_cases(self, tier, seed):
         N = 1500 if tier == "quick" else 40000
